@@ -95,7 +95,11 @@ func (pr *ActiveTestResp) IDecode(data []byte) error {
 	defer buf.Release()
 
 	pr.Header = smgp.ReadHeader(buf)
-	pr.Reserved = buf.ReadUint8()
+	// SMGP 3.0 defines Active_Test_Resp without a body; the Reserved octet this
+	// package emits is optional on input.
+	if buf.Remaining() > 0 {
+		pr.Reserved = buf.ReadUint8()
+	}
 
 	return buf.Error()
 }
